@@ -37,9 +37,26 @@ func VerifC04Pages() {
 	nd.Assert(AddIndex(vCtx, c, vTbl, vIdx, "g", "h") == nil, "setup-addindex")
 	// one partition ("a") and one index partition ("g"): the sort keys, the index sort keys (which may
 	// coincide: equal index keys) and the filter attribute are symbolic
+	// parts=1: the partition key of every item (and its index partition key) is symbolic too, so that a Scan
+	// pages across partition boundaries and a Query has to skip other partitions' items; sparse=1: an item may
+	// lack the index key attributes (it is then absent from the index, and a page boundary may fall next to it)
+	parts, sparse := nd.Param("parts", 0) == 1, nd.Param("sparse", 0) == 1
+	hv, ghv := "a", "g"
+	if parts {
+		hv, ghv = nd.StringN("rd.hv", 1), nd.StringN("rd.ghv", 1)
+	}
 	for i := 0; i < n; i++ {
 		nm := "k" + string(rune('0'+i))
-		it := vItem{"p": vS("a"), "s": vS(nd.StringN(nm+".s", 1)), "g": vS("g"), "h": vS(nd.StringN(nm+".h", 1)), "f": vS(nd.StringN(nm+".f", 1))}
+		pv, gv := "a", "g"
+		if parts {
+			pv, gv = nd.StringN(nm+".p", 1), nd.StringN(nm+".g", 1)
+		}
+		it := vItem{"p": vS(pv), "s": vS(nd.StringN(nm+".s", 1)), "f": vS(nd.StringN(nm+".f", 1))}
+		if !sparse || nd.Choice(nm+".indexed", 2) == 1 {
+			it["g"], it["h"] = vS(gv), vS(nd.StringN(nm+".h", 1))
+		} else {
+			nd.Reach("unindexed-item")
+		}
 		nd.Assert(vPut(c, it) == nil, "setup-put")
 	}
 	r := vRead{forward: true}
@@ -53,22 +70,22 @@ func VerifC04Pages() {
 	}
 	switch nd.Choice("rd.shape", 7) {
 	case 5: // a sort-key range condition together with a Limit
-		r.hashVal, r.rangeOp, r.r1 = "a", ">=", nd.StringN("rd.r1", 1)
+		r.hashVal, r.rangeOp, r.r1 = hv, ">=", nd.StringN("rd.r1", 1)
 	case 6:
-		r.hashVal, r.rangeOp, r.r1, r.forward = "a", "<", nd.StringN("rd.r1", 1), false
+		r.hashVal, r.rangeOp, r.r1, r.forward = hv, "<", nd.StringN("rd.r1", 1), false
 	case 0:
 		r.scan = true
 	case 1:
 		r.scan, r.filter, r.fv = true, "=", nd.StringN("rd.fv", 1)
 	case 2:
-		r.hashVal = "a"
+		r.hashVal = hv
 	case 3:
-		r.hashVal, r.forward = "a", false
+		r.hashVal, r.forward = hv, false
 	case 4:
-		r.hashVal, r.filter, r.fv = "a", "<>", nd.StringN("rd.fv", 1)
+		r.hashVal, r.filter, r.fv = hv, "<>", nd.StringN("rd.fv", 1)
 	}
 	if r.index && !r.scan {
-		r.hashVal = "g"
+		r.hashVal = ghv
 	}
 	full, _, lastFull, err := r.run(c, 0, nil)
 	nd.Assert(err == nil && len(lastFull) == 0, "C04-unlimited-read-is-complete")
